@@ -9,7 +9,7 @@ from vcommon import seed
 PROP = "C03"
 FAMS = ["reflexive", "sublist", "combination", "scaled", "equal_bounds", "infeasible_left", "empty_right",
         "separated", "feasible_vs_infeasible", "empty_left", "random", "contract_weaken", "contract_under_assumptions",
-        "contract_itf", "membership", "print_twin", "huge_constant"]
+        "contract_itf", "membership", "print_twin", "huge_constant", "contract_infeasible_side"]
 
 
 def feasible_list(rng, vs, n, dy=0.0):
@@ -88,6 +88,17 @@ def gen_case(rng, i):
             g2 = [({v: a for v, a in g2[0][0].items() if a != 0}, g2[0][1])]
             c2 = {"inv": list(inv), "outv": list(outv), "a": list(a1), "g": g2 if g2[0][0] else list(g1)}
             c1 = dict(c1, a=[])  # left assumes nothing: weaker assumptions
+        elif fam == "contract_infeasible_side":
+            # one side cannot be satisfied at all: guarantees that contradict each other on the left (the assumption condition still has
+            # to hold: here it does not, the left assumes strictly more), or assumptions that contradict each other on the right
+            r = g1[0]
+            bad = [r, ({v: -x for v, x in r[0].items()}, -r[1] - rng.choice([1, 2]))]
+            if rng.random() < 0.6:
+                c1 = dict(c1, a=a1 + [weakened(a1[0], -rng.choice([1, 2]))], g=bad)
+                c2 = {"inv": list(inv), "outv": list(outv), "a": list(a1), "g": list(g1)}
+            else:
+                ra = a1[0]
+                c2 = {"inv": list(inv), "outv": list(outv), "a": [ra, ({v: -x for v, x in ra[0].items()}, -ra[1] - 1)], "g": list(g1)}
         else:
             c2 = {"inv": inv + ["q"], "outv": list(outv), "a": list(a1), "g": list(g1)} if rng.random() < 0.5 else \
                  {"inv": list(inv), "outv": outv + ["q"], "a": list(a1), "g": list(g1)}
